@@ -52,30 +52,32 @@ def i32At (buf : List Nat) (o : Nat) : Outcome (Bool × Nat) :=
 
 def isCont (b : Nat) : Bool := 0x80 ≤ b && b ≤ 0xBF
 
-def validUtf8 : List Nat → Bool
-  | [] => true
-  | b0 :: rest =>
-    if b0 < 0x80 then validUtf8 rest
-    else if 0xC2 ≤ b0 && b0 ≤ 0xDF then
-      match rest with
-      | b1 :: r => isCont b1 && validUtf8 r
-      | _ => false
-    else if 0xE0 ≤ b0 && b0 ≤ 0xEF then
-      match rest with
-      | b1 :: b2 :: r =>
-        (if b0 == 0xE0 then 0xA0 ≤ b1 && b1 ≤ 0xBF
-         else if b0 == 0xED then 0x80 ≤ b1 && b1 ≤ 0x9F
-         else isCont b1) && isCont b2 && validUtf8 r
-      | _ => false
-    else if 0xF0 ≤ b0 && b0 ≤ 0xF4 then
-      match rest with
-      | b1 :: b2 :: b3 :: r =>
-        (if b0 == 0xF0 then 0x90 ≤ b1 && b1 ≤ 0xBF
-         else if b0 == 0xF4 then 0x80 ≤ b1 && b1 ≤ 0x8F
-         else isCont b1) && isCont b2 && isCont b3 && validUtf8 r
-      | _ => false
-    else false
-termination_by l => l.length
+/-- one step of the UTF-8 acceptor.  States: 0 = between characters; 1, 2, 3 = that many
+    continuation bytes still expected; 4 = after `E0` (next `A0..BF`), 5 = after `ED` (next `80..9F`),
+    6 = after `F0` (next `90..BF`), 7 = after `F4` (next `80..8F`); `none` = rejected -/
+def utf8Step (st : Option Nat) (b : Nat) : Option Nat :=
+  match st with
+  | none => none
+  | some 0 =>
+    if b < 0x80 then some 0
+    else if 0xC2 ≤ b && b ≤ 0xDF then some 1
+    else if b == 0xE0 then some 4
+    else if b == 0xED then some 5
+    else if 0xE1 ≤ b && b ≤ 0xEF then some 2
+    else if b == 0xF0 then some 6
+    else if b == 0xF4 then some 7
+    else if 0xF1 ≤ b && b ≤ 0xF3 then some 3
+    else none
+  | some 1 => if isCont b then some 0 else none
+  | some 2 => if isCont b then some 1 else none
+  | some 3 => if isCont b then some 2 else none
+  | some 4 => if 0xA0 ≤ b && b ≤ 0xBF then some 1 else none
+  | some 5 => if 0x80 ≤ b && b ≤ 0x9F then some 1 else none
+  | some 6 => if 0x90 ≤ b && b ≤ 0xBF then some 2 else none
+  | some 7 => if 0x80 ≤ b && b ≤ 0x8F then some 2 else none
+  | some _ => none
+
+def validUtf8 (l : List Nat) : Bool := l.foldl utf8Step (some 0) == some 0
 
 /-- `s.chars().count()` of valid UTF-8 -/
 def charCount (bs : List Nat) : Nat := (bs.filter (fun b => !isCont b)).length
